@@ -239,3 +239,145 @@ def escape_coverage_rule(crate, syn, prop, rule="C04.R10"):
                    en.file(), en.line())
     r.floor = 1
     return r
+
+
+# ------------------------------------------------------------------ walkers over syn::Type
+
+SYN_TYPE = ["Array", "BareFn", "Group", "ImplTrait", "Infer", "Macro", "Never", "Paren", "Path", "Ptr", "Reference", "Slice", "TraitObject", "Tuple", "Verbatim"]
+
+
+def _reaches_walker(crate, group, cg, path, walker):
+    """does `path` (a function or closure of the group) call the walker, directly or through other members of the group?"""
+    seen, todo = set(), [path]
+    while todo:
+        p = todo.pop()
+        if p in seen:
+            continue
+        seen.add(p)
+        for q in cg.get(p, ()):
+            if q == walker:
+                return True
+            if q in group:
+                todo.append(q)
+    return False
+
+
+def type_walker_rule(crate, prop, rule, walker, leaf, leaf_kind, desc):
+    """A recursive walker over syn::Type must visit every type constructor that a field type or an `as` type is built
+    from: each constructor's arm leads back into the walker, the path arm descends into angle-bracketed arguments and
+    into `<T as Trait>::Assoc`, and the leaf arm does the walker's job.  Read off the MIR: which discriminant value of
+    syn::Type leads to which block, and whether a call into the walker (directly, through a helper, or in a closure handed
+    to an iterator adaptor) is reachable from there."""
+    r = Result(rule, desc)
+    w0 = crate.body(walker)
+    if w0 is None:
+        r.fail(prop, "anchor-missing " + walker, "walker not found")
+        return r
+    name = walker.split("::")[-1]
+    group = crate.owned_by(walker)
+    cg = crate.callgraph(("TS",))
+    b = crate.inlined(w0)
+    sws = []
+    for blk in range(b.n):
+        sw = b.term(blk)
+        if sw["k"] != "switch" or b.is_cleanup(blk) or op_local(sw["discr"]) is None:
+            continue
+        for bb, i, d in M.def_sites(b, op_local(sw["discr"])):
+            if i != "term" and d["rv"]["k"] == "discr" and re.search(r"(^|[ &])(mut )?syn::Type$", b.local_ty(d["rv"]["pl"]["l"])) and not [x for x in d["rv"]["pl"]["p"] if x != "*"]:
+                sws.append((blk, sw))
+    if not sws:
+        r.fail(prop, "anchor-missing %s match" % name, "no match on the constructor of the syn::Type being walked", w0.file(), w0.line())
+        return r
+    blk0, sw0 = sws[0]
+    targets = {}
+    for v, tg in sw0["targets"]:
+        if isinstance(v, int) and v < len(SYN_TYPE):
+            targets.setdefault(tg, []).append(SYN_TYPE[v])
+    by_ctor = {c: tg for tg, cs in targets.items() for c in cs}
+
+    def recursive_calls(region):
+        out = []
+        for x in region:
+            t = b.term(x)
+            if t["k"] != "call" or b.is_cleanup(x) or not t.get("fn"):
+                continue
+            p = t["fn"].get("res") or t["fn"].get("path") or ""
+            if p == walker or (p in group and _reaches_walker(crate, group, cg, p, walker)):
+                out.append((x, t))
+                continue
+            # a closure handed to an adaptor (for_each / map / filter_map ..): does its body come back here?
+            for a in t["args"]:
+                l = op_local(a)
+                for o in (origins(b, l) if l is not None else []):
+                    cl = o["rv"].get("closure") if o["kind"] == "agg" else None
+                    if cl and cl in group and _reaches_walker(crate, group, cg, cl, walker):
+                        out.append((x, t))
+        return out
+
+    others = set(by_ctor.values()) | {sw0["otherwise"]}
+    for ctor in ("Array", "Group", "Paren", "Reference", "Slice", "Tuple", "Path"):
+        tg = by_ctor.get(ctor)
+        rec = False
+        if tg is not None and tg != sw0["otherwise"]:
+            region = b.reachable_from([tg], stop=lambda x: x in others and x != tg)
+            rec = bool(recursive_calls(region))
+        r.inst(fn=walker, constructor=ctor, has_own_arm=tg is not None and tg != sw0["otherwise"], recurses=rec)
+        if not rec:
+            r.fail(prop, "walker-coverage %s Type::%s" % (name, ctor),
+                   "%s does not descend into Type::%s, so a type nested in that constructor is not %s" % (name, ctor, leaf), w0.file(), w0.line())
+    # Path: generic arguments and qself
+    bodies = [b] + [x for x in crate.bodies if x.path in group and x.path != walker]
+    ga = False
+    for bb in bodies:
+        for blk in range(bb.n):
+            sw = bb.term(blk)
+            if sw["k"] != "switch" or bb.is_cleanup(blk) or op_local(sw["discr"]) is None:
+                continue
+            for b2, i, d in M.def_sites(bb, op_local(sw["discr"])):
+                if i != "term" and d["rv"]["k"] == "discr" and "syn::GenericArgument" in bb.local_ty(d["rv"]["pl"]["l"]):
+                    ga = True
+    qself = any(".qself" in str(st) for bb in bodies for blk in range(bb.n) if not bb.is_cleanup(blk) for st in bb.stmts(blk) if st["k"] == "assign")
+    r.inst(fn=walker, constructor="Path (generic arguments)", recurses=ga)
+    r.inst(fn=walker, constructor="Path/qself", recurses=qself)
+    if not ga:
+        r.fail(prop, "walker-coverage %s Type::Path" % name, "%s does not descend into the angle-bracketed arguments of a path, so a type nested there is not %s" % (name, leaf), w0.file(), w0.line())
+    if not qself:
+        r.fail(prop, "walker-coverage %s Type::Path/qself" % name, "%s does not look at the self type of `<T as Trait>::Assoc`, so a type nested there is not %s" % (name, leaf), w0.file(), w0.line())
+    if name == "replace_underscore":
+        partial = [t for bb in bodies for blk, t in bb.calls() if not bb.is_cleanup(blk) and fn_matches(t, r"Punctuated::<T, P>::(last|last_mut|first|first_mut)$") and "PathSegment" in (t.get("arg_tys") or [""])[0]]
+        loops = [t for bb in bodies for blk, t in bb.calls() if not bb.is_cleanup(blk) and fn_matches(t, r"(iter_mut|iter|into_iter)$") and "PathSegment" in (t.get("arg_tys") or [""])[0]]
+        allseg = bool(loops) and not partial
+        r.inst(fn=walker, constructor="Path (every segment)", recurses=allseg)
+        if not allseg:
+            r.fail(prop, "walker-coverage %s Type::Path/segments" % name,
+                   "%s looks at one segment of a path only: in `#[ts(as = \"<Wire as Encode<_>>::Repr\")]` the `_` sits in a segment that is not the last one and stays in the generated code (E0121/E0282)", w0.file(), w0.line())
+    # leaf
+    if leaf_kind == "infer":
+        tg = by_ctor.get("Infer")
+        region = b.reachable_from([tg], stop=lambda x: x in others and x != tg) if tg is not None else set()
+        ok_leaf = any(b.term(x)["k"] == "call" and fn_matches(b.term(x), r"clone::Clone::clone$") for x in region) and \
+            any(st["k"] == "assign" and "*" in st["dst"]["p"] for x in region for st in b.stmts(x)) or \
+            any(b.term(x)["k"] == "drop" for x in region) and any(b.term(x)["k"] == "call" and fn_matches(b.term(x), r"clone::Clone::clone$") for x in region)
+    else:
+        ok_leaf = any(fn_matches(t, r"collections::HashSet::<T, S(, A)?>::insert$", r"vec::Vec::<T, A>::push$") and panics_origin(bb, t).startswith("param")
+                      for bb in bodies for blk, t in bb.calls() if not bb.is_cleanup(blk))
+    r.inst(fn=walker, leaf=leaf, ok=bool(ok_leaf))
+    if not ok_leaf:
+        r.fail(prop, "walker-leaf %s" % name, "%s: the leaf action (%s) is not performed" % (name, leaf), w0.file(), w0.line())
+    r.floor = 9
+    return r
+
+
+def panics_origin(body, t):
+    from rules import panics
+    return panics.operand_origin(body, t["args"][0]) if t["args"] else ""
+
+
+def underscore_walker_rule(crate, prop, rule="C14.R8"):
+    return type_walker_rule(crate, prop, rule, "attr::field::replace_underscore", "replaced by the field's own type", "infer",
+                            "`_` in `#[ts(as = \"..\")]` stands for the field's type: replace_underscore substitutes it at every depth (array, none-delimited group from a `$t:ty` fragment, paren, reference, slice, tuple, generic arguments of every path segment, the self type of a qualified path)")
+
+
+def type_param_walker_rule(crate, prop, rule="C16.R8"):
+    return type_walker_rule(crate, prop, rule, "used_type_params", "given its `TS` bound", "param",
+                            "the generated where-clause bounds every type parameter a field uses, at every depth (array, none-delimited group from a `$t:ty` fragment, paren, reference, slice, tuple, path arguments, the self type of a qualified path)")
